@@ -225,9 +225,9 @@ type histCase struct {
 }
 
 type histResult struct {
-	ops      []string // per-op observation class
-	v        *viol
-	verified bool // some Verify returned nil
+	ops             []string // per-op observation class
+	v               *viol
+	verified        bool // some Verify returned nil
 	readAfterVerify bool
 }
 
@@ -239,11 +239,11 @@ func runHist(b *baseBlob, raw []byte, badFile string, hc histCase, scratch strin
 		return res, err.Error()
 	}
 	defer w.close()
-	state := "none"         // none | verified | skipped: which call made the layer usable (decided from observed returns)
-	guardAt := -1           // index of the first Verify(D) that returned nil
-	guardState := ""        // state before that call
-	cachedBefore := false   // the bad file's chunks were read or prefetched before the guard
-	touched := false        // some read / prefetch happened so far
+	state := "none"       // none | verified | skipped: which call made the layer usable (decided from observed returns)
+	guardAt := -1         // index of the first Verify(D) that returned nil
+	guardState := ""      // state before that call
+	cachedBefore := false // the bad file's chunks were read or prefetched before the guard
+	touched := false      // some read / prefetch happened so far
 	desc := func(i int) string {
 		return fmt.Sprintf("%s; history: %s", hc.Cfg, histString(hc.Hist[:i+1]))
 	}
